@@ -8,8 +8,20 @@ Import ListNotations.
 From GMS Require Import Codec.C25Arith Codec.C27Convert.
 Open Scope Z_scope.
 
-Inductive cval := CNull | CV (v : value).
-Inductive ctype := CInt (t : ity) | CDec (s : Z) (col : bool).
+(* temporal / string operands *)
+Inductive tval :=
+| TTime (y m d h mi s us : Z)    (* a time.Time (UTC civil fields, microseconds) *)
+| TText (y m d h mi s us : Z)    (* the text 'YYYY-MM-DD[ HH:MM:SS[.ffffff]]' *)
+| TYearI (z : Z)                 (* an integer given to YEAR *)
+| TYearS (z : Z)                 (* a 1-, 2- or 4-digit string given to YEAR *)
+| TSpan (us : Z)                 (* a Timespan, microseconds *)
+| TStr (bs : list Z).            (* a string, as bytes *)
+
+Inductive cval := CNull | CV (v : value) | CX (t : tval).
+Inductive ctype :=
+| CInt (t : ity) | CDec (s : Z) (col : bool)
+| CDate | CDatetime (p : Z) | CTimestamp (p : Z) | CYear | CTime
+| CBin.                          (* VARBINARY, and VARCHAR under utf8mb4_bin on valid UTF-8: byte order *)
 
 Definition sgn_cmp (a b : Z) : Z := match a ?= b with Lt => -1 | Eq => 0 | Gt => 1 end.
 
@@ -25,17 +37,73 @@ Definition key_dec (s : Z) (col : bool) (v : value) : Z * Z :=
 Definition cmp_dec (a b : Z * Z) : Z :=
   let '(m1, s1) := a in let '(m2, s2) := b in sgn_cmp (m1 * 10 ^ s2) (m2 * 10 ^ s1).
 
+(* days since 1970-01-01 of a proleptic Gregorian date (the count time.Time.Before / After order by) *)
+Definition days_from_civil (y m d : Z) : Z :=
+  let y' := if m <=? 2 then y - 1 else y in
+  let era := y' / 400 in
+  let yoe := y' - era * 400 in
+  let mp := (m + 9) mod 12 in
+  let doy := (153 * mp + 2) / 5 + d - 1 in
+  let doe := yoe * 365 + yoe / 4 - yoe / 100 + doy in
+  era * 146097 + doe - 719468.
+
+Definition day_us : Z := 86400000000.
+Definition us_of (y m d h mi s us : Z) : Z :=
+  days_from_civil y m d * day_us + h * 3600000000 + mi * 60000000 + s * 1000000 + us.
+
+(* time.Round to the type's fractional-seconds precision: half up *)
+Definition round_us (p us : Z) : Z := let u := 10 ^ (6 - p) in ((us + u / 2) / u) * u.
+(* time.Truncate(24h) *)
+Definition trunc_day (us : Z) : Z := (us / day_us) * day_us.
+
+(* YearType_.Convert on integers: 0, 1..69 -> 20xx, 70..99 -> 19xx, 1901..2155 *)
+Definition year_of_int (z : Z) : Z :=
+  if z =? 0 then 0 else if (1 <=? z) && (z <=? 69) then z + 2000 else if (70 <=? z) && (z <=? 99) then z + 1900 else z.
+
+(* the count a temporal operand is ordered by: a time.Time is only truncated for DATE (never rounded); text goes
+   through ConvertToTime (truncated for DATE, rounded to the precision otherwise) *)
+Definition tkey (t : ctype) (v : tval) : Z :=
+  match t, v with
+  | CDate, TTime y m d h mi s us | CDate, TText y m d h mi s us => trunc_day (us_of y m d h mi s us)
+  | CDatetime p, TTime y m d h mi s us | CTimestamp p, TTime y m d h mi s us => us_of y m d h mi s us
+  | CDatetime p, TText y m d h mi s us | CTimestamp p, TText y m d h mi s us => round_us p (us_of y m d h mi s us)
+  | CYear, TYearI z => year_of_int z
+  | CYear, TYearS z => if z =? 0 then 2000 else year_of_int z
+  | CTime, TSpan us => us
+  | _, _ => 0
+  end.
+
+(* byte-wise lexicographic order; a proper prefix sorts first *)
+Fixpoint cmp_bytes (a b : list Z) : Z :=
+  match a, b with
+  | [], [] => 0
+  | [], _ :: _ => -1
+  | _ :: _, [] => 1
+  | x :: a', y :: b' => match x ?= y with Lt => -1 | Gt => 1 | Eq => cmp_bytes a' b' end
+  end.
+
 Definition compare (t : ctype) (a b : cval) : Z :=
   match a, b with
   | CNull, CNull => 0
-  | CNull, CV _ => 1
-  | CV _, CNull => -1
+  | CNull, _ => 1
+  | _, CNull => -1
   | CV x, CV y =>
       match t with
       | CInt it => sgn_cmp (key_int it x) (key_int it y)
       | CDec s col => cmp_dec (key_dec s col x) (key_dec s col y)
+      | _ => 0
       end
+  | CX x, CX y =>
+      match t, x, y with
+      | CBin, TStr p, TStr q => cmp_bytes p q
+      | CBin, _, _ => 0
+      | _, _, _ => sgn_cmp (tkey t x) (tkey t y)
+      end
+  | _, _ => 0
   end.
+
+Fixpoint zs_eqb' (a b : list Z) : bool :=
+  match a, b with [], [] => true | x :: a', y :: b' => (x =? y) && zs_eqb' a' b' | _, _ => false end.
 
 Definition cval_eqb (a b : cval) : bool :=
   match a, b with CNull, CNull => true | CV x, CV y => value_eqb x y | _, _ => false end.
